@@ -8,6 +8,7 @@ transactions; after every transaction GetLinks / IsLinked / IterateLinks / raw b
 GetLinkCounts / GetLinkCount / raw count bucket on both sides for every universe id."""
 import json
 import os
+import time
 
 import vlib
 
@@ -215,9 +216,6 @@ def classify(case, blocks_i, blocks_m):
         vm, _ = parse_block(bm)
         tx = case["txs"][n] if n < len(case["txs"]) else []
         where = "transaction %d [%s]" % (n, "; ".join(pretty_op(o) for o in tx))
-        if not guard:
-            return ("C05:correspondence-int32", "outside the int32 guard of the theorems the model and the code differ in %s: impl %s model %s"
-                    % (where, bi[:300], bm[:300]), True)
         if si is None:
             return "C05:observer-failure", "the observers failed after %s: %s" % (where, bi[:300]), False
         hit = property_oracle(case, si, guard)
@@ -243,6 +241,10 @@ def classify(case, blocks_i, blocks_m):
             return "C05:set-links-inexact", "after %s the link sets are not the requested ones: impl %s expected %s" % (where, bi[:400], bm[:400]), False
         if links_differ:
             return "C05:wrong-link-set", "after %s the link sets are wrong: impl %s expected %s" % (where, bi[:400], bm[:400]), False
+        if not guard:
+            # counts beyond int32 / negative counts are outside the theorems: the wrap-around model no longer matches the code
+            return ("C05:correspondence-int32", "outside the int32 guard of the theorems the model and the code differ in %s: impl %s model %s"
+                    % (where, bi[:300], bm[:300]), True)
         return "C05:wrong-count", "after %s the link counts are wrong: impl %s expected %s" % (where, bi[:400], bm[:400]), False
     if len(blocks_i) != len(blocks_m):
         return "C05:correspondence", "different number of transaction observations", True
@@ -274,12 +276,16 @@ def shrink(c, harness, model, case, key):
     txs = [list(tx) for tx in case["txs"]]
     rounds = 0
     best = None
-    while rounds < 60:
+    t0 = time.time()
+    while rounds < 60 and time.time() - t0 < 90:
         rounds += 1
         cands = []
         for i in range(len(txs)):
             cands.append(txs[:i] + txs[i + 1:])
+        small = sum(len(tx) + sum(len(o["keys"]) for o in tx) for tx in txs) <= 120
         for i, tx in enumerate(txs):
+            if not small:
+                break
             for j in range(len(tx)):
                 if len(tx) > 1:
                     cands.append(txs[:i] + [tx[:j] + tx[j + 1:]] + txs[i + 1:])
